@@ -32,6 +32,19 @@ def attempt(build, exercise):
   return Outcome.ACCEPTED, ""
 
 
+def graph_call(layer, x):
+  """The same call traced as a graph with an unknown batch dimension (what Keras fit / predict / a
+  functional model does). Must not raise and must agree with the eager result."""
+  tf, _ = bind.bind()
+  x = tf.convert_to_tensor(x)
+  fn = tf.function(lambda t: layer(t), input_signature=[tf.TensorSpec([None] + list(x.shape[1:]), x.dtype)])
+  g = np.asarray(fn(x))
+  e = np.asarray(layer(x))
+  if g.shape != e.shape or not np.allclose(g, e, rtol=1e-5, atol=1e-6, equal_nan=True):
+    raise AssertionError("graph-mode call (unknown batch size) differs from the eager call")
+  return g
+
+
 def judge(expect, outcome):
   """expect in {'reject','accept','either'}; returns violation kind or None."""
   if outcome not in (Outcome.REJECTED, Outcome.ACCEPTED):
@@ -191,6 +204,9 @@ def lattice_exercise(layer_and_cfg):
   twin.build((None, len(sizes)) if lu == 1 else (None, lu, len(sizes)))
   twin.kernel.assign(layer.kernel.numpy())
   y2 = np.asarray(twin(tf.constant(X)))
+  if lu > 1 or (len(sizes) + int(np.sum(sizes))) % 3 == 0:
+    graph_call(layer, X)
+    graph_call(twin, X)
   Xi = rl.input_grid(sizes, fine=False, outside=False).astype(np.float32)
   if lu > 1:
     Xi = np.repeat(Xi[:, None, :], lu, axis=1)
@@ -381,6 +397,7 @@ def pwl_exercise(layer):
   y0 = np.asarray(layer(tf.constant(xs)))
   layer.kernel.assign(out[:, 4:5])
   y1 = np.asarray(layer(tf.constant(xs)))
+  graph_call(layer, xs)
   return bool(ok and np.all(np.isfinite(y0)) and np.all(np.isfinite(y1)))
 
 
@@ -479,6 +496,7 @@ def linear_exercise(layer):
   X = np.array(list(itertools.product([-2.0, 0.0, 1.0, 5.0], repeat=n)), dtype=np.float32)
   layer.kernel.assign(out[:, 3:4] if np.all(np.isfinite(out[:, 3:4])) else W[:, 3:4])
   y = np.asarray(layer(tf.constant(X)))
+  graph_call(layer, X)
   return bool(ok and np.all(np.isfinite(y)))
 
 
@@ -529,6 +547,7 @@ def cat_exercise(layer):
     out = np.asarray(layer.kernel.constraint(tf.constant(np.concatenate([W, 1e3 * W], axis=1))))
   ok = np.all(np.isfinite(out))
   y = np.asarray(layer(tf.constant(np.arange(nb, dtype=np.int32)[:, None])))
+  graph_call(layer, np.arange(nb, dtype=np.int32)[:, None])
   return bool(ok and np.all(np.isfinite(y)))
 
 
@@ -583,6 +602,7 @@ def kfl_exercise(layer):
     X = np.array(list(itertools.product([-1.0, 0.0, 0.5, 1.0, 7.0], repeat=2)), dtype=np.float32)
     y = np.asarray(layer(tf.constant(X if u == 1 else np.repeat(X[:, None, :], u, axis=1))))
     ok = ok and np.all(np.isfinite(y)) and np.all(np.isfinite(layer.kernel.numpy()))
+  graph_call(layer, X if u == 1 else np.repeat(X[:, None, :], u, axis=1))
   return bool(ok)
 
 
@@ -860,7 +880,8 @@ def run_trial(t):
                                     input_keypoints_type=t["ktype"], convexity=t["conv"])
       l.build((None, 1)); return l
     expect = "reject" if (t["ktype"] == "learned" or (t["ktype"] == "learned_interior" and t["conv"])) else "accept"
-    outcome, detail = attempt(build, lambda l: bool(np.all(np.isfinite(np.asarray(l(tf.constant([[0.5], [3.0]])))))))
+    outcome, detail = attempt(build, lambda l: bool(np.all(np.isfinite(np.asarray(l(tf.constant([[0.5], [3.0]])))))
+                                                   and np.all(np.isfinite(graph_call(l, np.array([[0.5], [3.0]], dtype=np.float32))))))
     return judge(expect, outcome), detail, expect, outcome
   expect_fn, build_fn, exercise_fn = FAMILIES[k]
   expect = expect_fn(t)
